@@ -62,6 +62,10 @@ type queued struct {
 	choices []uint8
 	sigHash [8]byte // hash of the (Kind, N, Sig) of the points up to and including the branching point in the parent
 	from    int
+	// expand: an execution of the previous level whose deviation-costing children belong to this level. It is
+	// re-executed (not counted, not judged) to regenerate them: keeping every child of a level in memory costs
+	// gigabytes once executions have thousands of points, keeping the parents costs one short prefix each.
+	expand bool
 }
 
 // Summary of one exploration.
@@ -71,6 +75,7 @@ type Summary struct {
 	BoundCompleted int // highest deviation bound fully explored (-1: not even 0)
 	Outcomes       map[string]int64
 	Diverged       int64
+	Reexec         int64 // executions repeated only to regenerate the children of a lower level (not counted in Execs)
 	Horizon        int64
 	Leaks          int64
 	PerLevel       []int64
@@ -128,6 +133,17 @@ func RunOnce(t *testing.T, sc *Scenario, choices []int, trace bool) (x *Exec) {
 			x.S = s
 			defer s.Stop()
 			sc.Body(x)
+			if trace && os.Getenv("VERIF_DUMP_GOROUTINES") != "" {
+				// debugging aid for harness authors: what is still alive when the body returns
+				synctest.Wait()
+				buf := make([]byte, 1<<20)
+				buf = buf[:runtime.Stack(buf, true)]
+				for _, g := range strings.Split(string(buf), "\n\n") {
+					if strings.Contains(g, "synctest") {
+						fmt.Fprintf(os.Stdout, "GOROUTINE-AT-END %s\n\n", g)
+					}
+				}
+			}
 		})
 	}()
 	if S != nil {
@@ -147,6 +163,37 @@ func Explore(t *testing.T, sc *Scenario, cfg Config, r *vrep.Result) *Summary {
 	levels := [][]queued{{{choices: nil, from: 0}}}
 	firstOutcome := ""
 	nViol := 0
+	// gen enumerates the children of execution e (trace tr, explored at parentLevel) whose alternative costs
+	// wantCost deviations, in a fixed order; the root's children are dealt out to the worker processes by their
+	// index in that order (the same in every pass, whatever cost is asked for)
+	gen := func(e queued, tr []PointRec, parentLevel, wantCost int, emit func(queued)) {
+		isRoot := len(e.choices) == 0
+		childIdx := 0
+		for i := len(tr) - 1; i >= e.from; i-- {
+			p := tr[i]
+			for alt := p.N - 1; alt >= 1; alt-- {
+				c := altCost(p, alt)
+				if parentLevel+c > cfg.MaxBound {
+					continue
+				}
+				if isRoot {
+					childIdx++
+					if childIdx%cfg.ShardN != cfg.ShardI {
+						continue
+					}
+				}
+				if c != wantCost {
+					continue
+				}
+				nc := make([]uint8, i+1)
+				for j := 0; j < i; j++ {
+					nc[j] = uint8(tr[j].Chosen)
+				}
+				nc[i] = uint8(alt)
+				emit(queued{choices: nc, sigHash: sigHashBranch(tr, i, alt), from: i + 1})
+			}
+		}
+	}
 	for level := 0; level <= cfg.MaxBound; level++ {
 		if level >= len(levels) || len(levels[level]) == 0 {
 			sum.BoundCompleted = cfg.MaxBound // nothing left to deviate on: every higher bound is covered too
@@ -163,6 +210,12 @@ func Explore(t *testing.T, sc *Scenario, cfg Config, r *vrep.Result) *Summary {
 					sum.Capped = fmt.Sprintf("stopped inside deviation bound %d after %d executions (deadline/execution cap)", level, sum.Execs)
 					goto done
 				}
+				if (sum.Execs+sum.Reexec)%512 == 511 {
+					if over, why := vrep.MemoryExceeded(); over {
+						sum.Capped = fmt.Sprintf("stopped inside deviation bound %d after %d executions (%s)", level, sum.Execs, why)
+						goto done
+					}
+				}
 				e := stack[len(stack)-1]
 				stack = stack[:len(stack)-1]
 				ch := make([]int, len(e.choices))
@@ -177,6 +230,16 @@ func Explore(t *testing.T, sc *Scenario, cfg Config, r *vrep.Result) *Summary {
 						ok = true
 						break
 					}
+				}
+				if e.expand {
+					// an execution of the previous level: only its deviation-costing children are wanted
+					if !ok {
+						sum.Diverged++
+						continue
+					}
+					sum.Reexec++
+					gen(e, x.S.Trace, level-1, 1, func(c queued) { stack = append(stack, c) })
+					continue
 				}
 				countable := len(e.choices) > 0 || cfg.ShardI == 0
 				if countable {
@@ -286,34 +349,13 @@ func Explore(t *testing.T, sc *Scenario, cfg Config, r *vrep.Result) *Summary {
 					}
 				}
 				// children (the children of the root execution are distributed over the worker processes; every
-				// other execution is explored by the worker that owns its ancestor)
-				isRoot := len(e.choices) == 0
-				childIdx := 0
-				for i := len(tr) - 1; i >= e.from; i-- {
-					p := tr[i]
-					for alt := p.N - 1; alt >= 1; alt-- {
-						c := altCost(p, alt)
-						if level+c > cfg.MaxBound {
-							continue
-						}
-						if isRoot {
-							childIdx++
-							if childIdx%cfg.ShardN != cfg.ShardI {
-								continue
-							}
-						}
-						nc := make([]uint8, i+1)
-						for j := 0; j < i; j++ {
-							nc[j] = uint8(tr[j].Chosen)
-						}
-						nc[i] = uint8(alt)
-						child := queued{choices: nc, sigHash: sigHashBranch(tr, i, alt), from: i + 1}
-						if c == 0 {
-							stack = append(stack, child)
-						} else {
-							next = append(next, child)
-						}
-					}
+				// other execution is explored by the worker that owns its ancestor): free alternatives are explored
+				// at this level, deviation-costing ones at the next, regenerated from this execution then
+				gen(e, tr, level, 0, func(c queued) { stack = append(stack, c) })
+				more := false
+				gen(e, tr, level, 1, func(queued) { more = true })
+				if more {
+					next = append(next, queued{choices: e.choices, sigHash: e.sigHash, from: e.from, expand: true})
 				}
 			}
 		}
